@@ -55,6 +55,9 @@ func validateResponseExits(c *core.Ctx) {
 			var probs []string
 			errExits := 0
 			_, trunc := astx.ForEachExit(info, fd.Body, func(s *astx.State, kind astx.ExitKind, ret *ast.ReturnStmt) {
+				if ret != nil && len(ret.Results) == 1 && astx.IsNil(info, ret.Results[0]) && fd.Recv != nil && !poolAssigned(info, s) {
+					probs = append(probs, "the success exit at "+p.Pos(ret.Pos())+" has not chosen the decompression pool for this response")
+				}
 				if ret == nil || len(ret.Results) != 1 || astx.IsNil(info, ret.Results[0]) {
 					return
 				}
@@ -143,6 +146,9 @@ func validateResponseExits(c *core.Ctx) {
 				}
 				if !exposed {
 					probs = append(probs, "the success exit at "+at+" has not copied the response headers to where the caller reads them")
+				}
+				if fd.Recv != nil && !poolAssigned(info, s) {
+					probs = append(probs, "the success exit at "+at+" has not chosen the decompression pool for this response (a pool left over from construction or from the request side stays in place)")
 				}
 				return
 			}
@@ -967,8 +973,10 @@ func unaryEncodingHeaderDecided(c *core.Ctx) {
 			case *ast.CallExpr:
 				if f := astx.CalleeFunc(info, y); f != nil && astx.TypeIs(recvType(f), "net/http", "Header") && len(y.Args) >= 1 && isEnc(y.Args[0]) {
 					switch f.Name() {
-					case "Set", "Add":
+					case "Set":
 						out = "set"
+					case "Add":
+						out = "add" // keeps whatever an earlier call left in the (caller-owned) map
 					case "Del":
 						out = "del"
 					}
@@ -991,7 +999,7 @@ func unaryEncodingHeaderDecided(c *core.Ctx) {
 		f := astx.CalleeFunc(info, call)
 		return f != nil && (f.Name() == "write" || f.Name() == "Write") && !astx.TypeIs(recvType(f), "bytes", "Buffer")
 	}
-	paths, bad := 0, 0
+	paths, bad, added := 0, 0, 0
 	_, trunc := astx.ForEachExit(info, fd.Body, func(s *astx.State, kind astx.ExitKind, ret *ast.ReturnStmt) {
 		wrote := s.CountCalls(writes) > 0
 		if ret != nil {
@@ -1007,8 +1015,12 @@ func unaryEncodingHeaderDecided(c *core.Ctx) {
 		paths++
 		decided := false
 		for _, st := range s.Steps {
-			if decides(st) != "" {
+			switch decides(st) {
+			case "set", "del":
 				decided = true
+			case "add":
+				decided = false
+				added++
 			}
 		}
 		if !decided {
@@ -1019,7 +1031,7 @@ func unaryEncodingHeaderDecided(c *core.Ctx) {
 		c.Undecided("decided", fd.Pos(), "path enumeration truncated")
 		return
 	}
-	c.Check(bad == 0 && paths > 0, "decided", fd.Pos(), "connectUnaryMarshaler.Marshal writes a body on %d path(s), %d of them without setting or removing %s", paths, bad, encConst.Name())
+	c.Check(bad == 0 && paths > 0, "decided", fd.Pos(), "connectUnaryMarshaler.Marshal writes a body on %d path(s), %d of them without setting or removing %s (%d path(s) only Add to it)", paths, bad, encConst.Name(), added)
 }
 
 func loopBodyOf(l ast.Node) *ast.BlockStmt {
@@ -1209,4 +1221,16 @@ func codedReadErrorKept(c *core.Ctx) {
 		}
 	}
 	c.Floor("re-coded transport read errors", sites, 4)
+}
+
+// poolAssigned: the path assigned a field named compressionPool from a pools.Get(…) lookup.
+func poolAssigned(info *types.Info, s *astx.State) bool {
+	return s.AnyStep(func(n ast.Node) bool {
+		as, ok := n.(*ast.AssignStmt)
+		if !ok || len(as.Lhs) != 1 || len(as.Rhs) != 1 || !astx.IsFieldNamed(info, as.Lhs[0], "compressionPool") {
+			return false
+		}
+		call, ok := astx.Unparen(as.Rhs[0]).(*ast.CallExpr)
+		return ok && isMethodNamed(info, call, "Get")
+	})
 }
